@@ -124,6 +124,7 @@ func wellFormed(buf []byte, n int) bool {
 //@     unroll 11
 
 //@ func LoadInt32(buf []byte) (ret int32, bytesRead uint64, err error)
+//@   ensures[single-byte-group] len(buf) > 0 && buf[0] < 0x80 ==> err == nil && bytesRead == 1
 //@   ensures[consumes-one-group] err == nil ==> bytesRead >= 1 && bytesRead <= 5 && wellFormed(buf, int(bytesRead))
 //@   ensures[value] err == nil && bytesRead < 5 ==> int64(ret) == specS(buf, int(bytesRead))
 //@   ensures[value-5-bytes] err == nil && bytesRead == 5 ==> uint32(ret) == uint32(specU(buf, 5))
@@ -138,6 +139,7 @@ func wellFormed(buf []byte, n int) bool {
 //@     invariant bytesRead >= 6 && shift == 7*int(bytesRead) && bytesRead <= 1<<48
 
 //@ func LoadInt64(buf []byte) (ret int64, bytesRead uint64, err error)
+//@   ensures[single-byte-group] len(buf) > 0 && buf[0] < 0x80 ==> err == nil && bytesRead == 1
 //@   ensures[consumes-one-group] err == nil ==> bytesRead >= 1 && bytesRead <= 10 && wellFormed(buf, int(bytesRead))
 //@   ensures[value] err == nil ==> ret == specS(buf, int(bytesRead))
 //@   ensures[error-is-clean] err != nil ==> ret == 0 && bytesRead == 0
